@@ -37,3 +37,24 @@ Theorem C10_isolation : forall T K conns i c inp sc,
   nth_error conns i = Some (c, inp, sc) -> nth_error (server_run T K conns) i = Some (session T K c inp sc).
 Proof. intros T K conns i c inp sc H. unfold server_run. rewrite nth_error_map, H. reflexivity. Qed.
 Print Assumptions C10_isolation.
+
+(* ---- the byte stream as the transport really delivers it (reader objects of C03): any script of read sizes, ending
+   with io.EOF or FAILING with an I/O error at any offset (reset, deadline) ---- *)
+Require Import Readers ReadersProofs SessionReaders.
+
+(* the peer closes: the trace is the one computed on the flat stream (all statements above apply to it) *)
+Theorem C10_any_fragmentation : forall T K c input sizes weof script,
+  stall_free sizes ->
+  c_session_body T K c input sizes weof script = session_body T K c input script.
+Proof. exact session_fragmentation_independent. Qed.
+Print Assumptions C10_any_fragmentation.
+
+(* the connection fails instead: what can be observed of the session - request authentication, handler invocations,
+   responses - is a prefix of what happens on the bytes that were delivered; a failure never makes the server run a
+   handler or send a response it would not have run or sent on those bytes *)
+Theorem C10_failing_connection : forall T K fuel c conn script,
+  transport_ok conn ->
+  prefix (filter visible (c_serve_loop T K fuel c (new_decoder false conn) script))
+         (filter visible (serve_loop T K fuel c {| rest := b_data conn; last := 0 |} script)).
+Proof. exact failing_connection_prefix. Qed.
+Print Assumptions C10_failing_connection.
